@@ -72,6 +72,8 @@ pub fn for_each_satisfaction<FP, FF>(
         combos.truncate(max_worlds - 1);
         combos.push(all);
     }
+    let builtin_worlds: Vec<((u32, u32), u64, u64)> =
+        combos.iter().filter(|((_, seq), _, _)| *seq != 0xffff_ffff).take(6).cloned().collect();
     for ((lt, seq), km, pm) in combos {
         let spend = Spend::simple(bitcoin::ScriptBuf::from_bytes(target.spk.clone()), lt, seq);
         let assets = make_assets(world, &spend, target, case, km, pm);
@@ -104,6 +106,28 @@ pub fn for_each_satisfaction<FP, FF>(
             }));
             handle(
                 world, rep, case_idx, run, "plan", mall, r2, &spend, &assets, km, pm, lt, seq,
+                &mut on_produced, &mut on_failed,
+            );
+        }
+    }
+    // flow 4: the library's own lock-time satisfiers. Signatures and preimages come from the
+    // harness signer (with its lock-time answers switched off), the lock times from the
+    // library's `impl Satisfier for absolute::LockTime` and `for Sequence`, combined by the
+    // tuple satisfier. Only with a non-final sequence: a bare LockTime satisfier cannot know
+    // that a final sequence disables nLockTime, which is the caller's business.
+    for ((lt, seq), km, pm) in builtin_worlds {
+        let spend = Spend::simple(bitcoin::ScriptBuf::from_bytes(target.spk.clone()), lt, seq);
+        let assets = make_assets(world, &spend, target, case, km, pm);
+        for mall in [false, true] {
+            let mut a2 = Assets::new(world, &spend, assets.ecdsa.clone());
+            a2.keys = assets.keys.clone();
+            a2.pre = assets.pre.clone();
+            a2.force_timelocks = Some(false);
+            let inner = satisfier(&a2, target);
+            let sat = (inner, bitcoin::absolute::LockTime::from_consensus(lt), bitcoin::Sequence(seq));
+            let r = guarded(std::panic::AssertUnwindSafe(|| if mall { desc.get_satisfaction_mall(&sat) } else { desc.get_satisfaction(&sat) }));
+            handle(
+                world, rep, case_idx, run, "builtin-locktime-satisfiers", mall, r, &spend, &assets, km, pm, lt, seq,
                 &mut on_produced, &mut on_failed,
             );
         }
